@@ -335,7 +335,9 @@ package bigbuff
 //@   guardmap mutex : consumers
 //@   entryguard consumers : consumer.mutex
 //@   cond cond : mutex
+//@   notify-on-change mutex
 //@   frozen : cond done ctx cancel consumers
+//@   objinv done : !oncedone(b.close) && b.done != nil ==> !closed(b.done)
 //@   bind (producer).getAsync = (*Buffer).getAsync
 //@   bind (producer).commit = (*Buffer).commit
 //@   bind (producer).delete = (*Buffer).delete
@@ -350,7 +352,11 @@ package bigbuff
 //@ type consumer as c
 //@   guard mutex : offset
 //@   cond cond : mutex
+//@   notify-on-change mutex
 //@   frozen : cond done ctx cancel producer
+//@   def buf(c) = as(c.producer, *Buffer)
+//@   objinv wired : c.done != nil && c.cancel != nil && c.ctx != nil && c.cond != nil && c.producer != nil && buf(c) != nil && (!oncedone(c.close) ==> !closed(c.done))
+//@   inv mutex delta : c.offset >= 0
 
 //@ type Exclusive as e
 //@   guard mutex : work
@@ -392,6 +398,7 @@ package bigbuff
 //@   ensures past : has(b.consumers, c) && b.consumers[c] + offset < b.offset ==> ret2 != nil
 //@   ensures unknown : !has(b.consumers, c) ==> ret2 != nil
 //@   ensures closed : ret2 == nil ==> lasterr(b.ctx) == nil
+//@   ensures errwhy : ret2 != nil ==> cancelled(b.ctx) || !has(b.consumers, c) || b.consumers[c] + offset < b.offset
 //@   ensures novalue : !ret1 ==> ret0 == nil
 
 //@ func (*Buffer).commit
@@ -441,13 +448,19 @@ package bigbuff
 //@   ensures err : ret1 != nil ==> ret0 == nil && unchanged(b.buffer, b.offset) && forall(k, ref, *consumer, has(b.consumers, k) == old(has(b.consumers, k)) && b.consumers[k] == old(b.consumers[k]))
 //@   ensures frame : unchanged(b.buffer, b.offset)
 //@   ensures spawned : ret1 == nil ==> spawned("(*Buffer).NewConsumer$1") == 1
+//@   ensures registered : ret1 == nil ==> ret0 != nil && is(ret0, *consumer) && has(b.consumers, as(ret0, *consumer)) && b.consumers[as(ret0, *consumer)] == b.offset && !old(has(b.consumers, as(ret0, *consumer)))
+//@   ensures fresh : ret1 == nil ==> as(ret0, *consumer).offset == 0 && as(ret0, *consumer).producer != nil && as(as(ret0, *consumer).producer, *Buffer) == b && as(ret0, *consumer).done != nil && as(ret0, *consumer).cancel != nil && as(ret0, *consumer).ctx != nil && as(ret0, *consumer).cond != nil && !closed(as(ret0, *consumer).done) && !oncedone(as(ret0, *consumer).close)
+//@   ensures others : ret1 == nil ==> forall(k, ref, *consumer, k != as(ret0, *consumer) ==> has(b.consumers, k) == old(has(b.consumers, k)) && b.consumers[k] == old(b.consumers[k]))
 
 //@ func (*Buffer).NewConsumer$1
 //@   props C12
 
 //@ func (*Buffer).Diff
 //@   props C02 C03
+//@   action mutex
 //@   ensures foreign : !ret1 ==> ret0 == 0
+//@   ensures value : ret1 ==> is(c, *consumer) && has(b.consumers, as(c, *consumer)) && ret0 == len(b.buffer) - (b.consumers[as(c, *consumer)] + as(c, *consumer).offset - b.offset)
+//@   ensures frame : unchanged(b.buffer, b.offset)
 
 //@ func (*Buffer).consumerOffsets
 //@   props C03 C04
@@ -486,3 +499,126 @@ package bigbuff
 //@   requires wired : cond != nil && ctx != nil
 //@   at-call (*sync.Cond).Broadcast#0 locked : cond.L != nil ==> heldcond(cond)
 //@   at-call (*sync.Cond).Broadcast#0 aftercancel : cancelled(ctx)
+
+//@ func (*Buffer).getAsync
+//@   props C01 C02 C05 C12
+//@   action mutex
+//@   holds W : c.mutex
+//@   requires known : b != nil && c != nil
+//@   ensures errs : ret2 != nil ==> ret0 == nil
+//@   ensures sync : ret2 == nil && ret0 == nil ==> has(b.consumers, c) && b.offset <= b.consumers[c] + offset && b.consumers[c] + offset < end(b) && ret1 == log(b, b.consumers[c] + offset)
+//@   ensures async : ret0 != nil ==> ret2 == nil && chancap(ret0) == 1 && spawned("(*Buffer).getAsync$1") == 1 && !closed(ret0) && sent(ret0) == 0
+//@   ensures syncnospawn : ret0 == nil ==> spawned("(*Buffer).getAsync$1") == 0
+//@   ensures available : has(b.consumers, c) && b.offset <= b.consumers[c] + offset && b.consumers[c] + offset < end(b) && !cancelled(b.ctx) ==> ret0 == nil && ret2 == nil
+//@   ensures frame : unchanged(b.buffer, b.offset)
+
+//@ func (*Buffer).getAsync$1
+//@   props C01 C05 C12
+//@   modular
+//@   # the consumer mutex is lent by consumer.Get, which keeps it until it has received from out
+//@   holds R : c.mutex
+//@   requires wired : b != nil && c != nil && out != nil && !closed(out) && b.cond != nil && b.ctx != nil
+//@   at-call send#0 msg : arg1.Error == nil ==> has(b.consumers, c) && arg1.Value == log(b, b.consumers[c] + offset)
+//@   at-call send#0 errmsg : arg1.Error != nil ==> arg1.Value == nil
+//@   ensures once : sent(out) == old(sent(out)) + 1
+//@   at-call CombineContext#0 sources : arg0 == ctx && len(arg1) == len(cancels) + 1 && arg1[0] == b.ctx && all(i, 0, len(cancels), arg1[i+1] == cancels[i])
+//@   loop WaitCond>0 invariant pending : result.Error == nil && result.Value == nil && inv(b.mutex) && heldW(b.mutex) && sent(out) == old(sent(out)) && !closed(out)
+
+//@ func (*Buffer).getAsync$1$1
+//@   props C01 C05
+
+// ---------------------------------------------------------------------------------------------------
+// C16 — context combinators (context.go)
+
+//@ func CombineContext
+//@   props C16 C12
+//@   ensures nonnil : ret != nil
+//@   ensures passthrough : ctx != nil && cancelled(ctx) ==> cancelled(ret)
+
+//@ func (*consumer).Get
+//@   requires recv : c != nil
+//@   props C01 C02 C05 C12
+//@   action mutex
+//@   at-call (producer).getAsync#0 args : arg2 == c && arg3 == c.offset && heldW(c.mutex) && len(arg4) == 1 && arg4[0] == c.ctx
+//@   at-call recv#0 lender : heldW(c.mutex)
+//@   # message invariant of the reply channel, established at the only send site ((*Buffer).getAsync$1/at-call@send#0:msg)
+//@   after-call recv#0 assume msg : ret0.Error == nil ==> has(buf(c).consumers, c) && ret0.Value == log(buf(c), buf(c).consumers[c] + c.offset)
+//@   ensures ok : ret1 == nil ==> c.offset == old(c.offset) + 1 && has(buf(c).consumers, c) && ret0 == log(buf(c), buf(c).consumers[c] + old(c.offset))
+//@   ensures fail [C05,C01,C02] : ret1 != nil ==> c.offset == old(c.offset) && ret0 == nil
+//@   ensures released [C12] : cancel != nil ==> calls(cancel) >= 1
+//@   at-call (producer).getAsync#0 open [C12] : lasterr(c.ctx) == nil
+
+//@ func (*consumer).Commit
+//@   requires recv : c != nil
+//@   props C02 C01 C12
+//@   action mutex
+//@   ensures nothing : old(c.offset) == 0 ==> ret != nil
+//@   ensures failed : ret != nil ==> c.offset == old(c.offset)
+//@   ensures ok : ret == nil ==> old(c.offset) > 0 && c.offset == 0 && has(buf(c).consumers, c) && buf(c).consumers[c] == old(buf(c).consumers[c]) + old(c.offset)
+
+//@ func (*consumer).Rollback
+//@   requires recv : c != nil
+//@   props C02
+//@   action mutex
+//@   ensures nothing : old(c.offset) == 0 ==> ret != nil
+//@   ensures failed : ret != nil ==> c.offset == old(c.offset)
+//@   ensures ok : ret == nil ==> old(c.offset) > 0 && c.offset == 0
+//@   ensures committed : has(buf(c).consumers, c) == old(has(buf(c).consumers, c)) && buf(c).consumers[c] == old(buf(c).consumers[c])
+
+//@ func (*consumer).Close
+//@   requires recv : c != nil
+//@   props C12
+//@   ensures once : old(oncedone(c.close)) ==> err != nil
+//@   ensures first : !old(oncedone(c.close)) ==> err == nil && oncedone(c.close) && closed(c.done) && calls(c.cancel) >= 1
+
+//@ func (*consumer).Close$1
+//@   props C12
+//@   loop 0 invariant mon : inv(c.mutex) && heldW(c.mutex) && calls(c.cancel) >= 1 && !closed(c.done) && oncedone(c.close)
+//@   at-call (producer).delete#0 settled : !panicking() ==> heldW(c.mutex) && c.offset == 0 && arg1 == c
+//@   at-call builtin.close#0 last : !panicking() ==> heldW(c.mutex) && c.offset == 0 && calls(c.cancel) >= 1 && arg0 == c.done
+
+//@ func (*Buffer).Close
+//@   props C12
+//@   ensures once : old(oncedone(b.close)) ==> err != nil
+//@   ensures first : !old(oncedone(b.close)) ==> err == nil && oncedone(b.close)
+
+//@ func (*Buffer).Close$1
+//@   props C12
+//@   loop 0 invariant mon : inv(b.mutex) && heldW(b.mutex) && calls(b.cancel) >= 1 && oncedone(b.close) && !closed(b.done)
+//@   at-call builtin.close#0 drained : !panicking() ==> heldW(b.mutex) && len(b.consumers) == 0 && calls(b.cancel) >= 1 && arg0 == b.done
+
+// Abstract contract of the Consumer interface (what package Range may rely on): every method may panic.
+//@ func (Consumer).Get
+//@   maypanic
+//@ func (Consumer).Commit
+//@   maypanic
+//@ func (Consumer).Rollback
+//@   maypanic
+
+//@ func Range
+//@   props C02
+//@   ensures nilconsumer : consumer == nil ==> err != nil
+//@   ensures nilfn : fn == nil ==> err != nil
+//@   loop 0 invariant idx : index >= 0 && calls(fn) >= 0
+//@   at-call (context.Context).Err#0 first : true
+
+//@ func Range$1
+//@   props C02
+//@   modular
+//@   explore-panics
+//@   requires wired : consumer != nil && fn != nil
+//@   at-call dynamic#0 fnargs : arg0 == index && arg1 == ilast("(Consumer).Get", 0) && ilast("(Consumer).Get", 1) == nil
+//@   at-call (Consumer).Commit#0 afterfn : lastarg(fn, 1) == ilast("(Consumer).Get", 0)
+//@   ensures committed : now(err) == nil ==> icalls("(Consumer).Commit") == 1 && icalls("(Consumer).Rollback") == 0 && ilast("(Consumer).Commit", 0) == nil && ok == lastres(fn, 0)
+//@   ensures rolledback : now(err) != nil ==> icalls("(Consumer).Rollback") == 1 && !ok
+//@   ensures-panic rolledback_p : icalls("(Consumer).Rollback") >= 1
+
+//@ func (*Buffer).Range
+//@   props C02
+//@   ensures foreign : !is(c, *consumer) ==> ret != nil
+
+//@ func (*Buffer).Range$1
+//@   props C02
+//@   modular
+//@   requires wired : fn != nil
+//@   ensures onlyiffn : ret ==> lastres(fn, 0)
